@@ -6,10 +6,11 @@
 -/
 import PolyVerif.Props.C08Mesh
 import PolyVerif.Lemmas.PlyFacesAscii
+import PolyVerif.Lemmas.PlyFacesTexAscii
 
 namespace PolyVerif
 namespace C08
-open Ply PlySpec PlyLemmas PlyCompose PlyHeader PlyAscii PlyFaces PlyFacesAscii
+open Ply PlySpec PlyLemmas PlyCompose PlyHeader PlyAscii PlyFaces PlyFacesAscii PlyFacesTexAscii
 
 variable {α : Type}
 
@@ -34,7 +35,6 @@ theorem faceStageAscii_spec (c : Coding α) (f : SpecFile α) (fe : SpecFaceElem
 located reader claims and hands exactly the face lines to the face stage -/
 theorem ply_spec_readback_vertex_ascii (c : Coding α) (L : GoFloatText c) (Z : SpecIntText c) (f : SpecFile α)
     (hf : f.format = .ascii) (hprops : f.vprops ≠ [])
-    (hnotex : ∀ fe, f.face = some fe → fe.tex = none)
     (htyped : ∀ r ∈ f.verts, r.map Datum.ty = f.vprops.map (·.ty))
     (hrange : ∀ r ∈ f.verts, ∀ d ∈ r, Datum.InRange c L Z d)
     (bl : List (Built × List Nat))
@@ -53,7 +53,7 @@ theorem ply_spec_readback_vertex_ascii (c : Coding α) (L : GoFloatText c) (Z : 
   have hfl : ∀ l ∈ (match f.face with | none => [] | some fe => PlyFacesAscii.faceLines c fe fe.faces), PLine l := by
     cases hface : f.face with
     | none => intro l hl; simp at hl
-    | some fe => exact faceLines_pline c fe (hnotex fe hface) fe.faces
+    | some fe => exact faceLines_plineL c L fe fe.faces
   have hpl : ∀ l ∈ vertLines c f.verts ++ (match f.face with | none => [] | some fe => PlyFacesAscii.faceLines c fe fe.faces),
       PLine l := by
     intro l hl
@@ -81,7 +81,7 @@ theorem ply_reads_spec_pointcloud_ascii_bytes (c : Coding α) (L : GoFloatText c
       = .ok (applyColumns ⟨.point, (List.range f.verts.length).map Int.ofNat, [], none⟩ (bl.map (·.1))
           (f.verts.map (rowOfS c L Z bl))) := by
   simp only [readMesh, refEncode, parse_specHeader f hok, bind, Except.bind]
-  rw [ply_spec_readback_vertex_ascii c L Z f hf hprops (by intro fe h; rw [hface] at h; cases h) htyped hrange bl hbuilt hloc,
+  rw [ply_spec_readback_vertex_ascii c L Z f hf hprops htyped hrange bl hbuilt hloc,
     findElement_spec_face, hface]
   simp [faceStageAscii, assemble, bind, Except.bind, pure, Except.pure]
 
@@ -103,8 +103,7 @@ theorem ply_reads_spec_mesh_ascii_bytes (c : Coding α) (L : GoFloatText c) (Z :
   simp only [readMesh, refEncode, parse_specHeader f hok, bind, Except.bind]
   have hfaces := readFacesAscii_ref c fe htex fe.faces (fun fc h => ⟨henc fc h, hsize fc h⟩)
     ⟨[0, 0, 0, 0], List.replicate 8 (c.ofInt 0)⟩ ⟨rfl, by simp⟩
-  rw [ply_spec_readback_vertex_ascii c L Z f hf hprops
-      (by intro fe' h; rw [hface] at h; cases h; exact htex) htyped hrange bl hbuilt hloc,
+  rw [ply_spec_readback_vertex_ascii c L Z f hf hprops htyped hrange bl hbuilt hloc,
     faceStageAscii_spec c f fe hface, hface]
   simp only []
   rw [hfaces, findFaceProps_ref fe htex]
